@@ -62,7 +62,7 @@ pub fn run_case(run: fn(&Case, bool) -> RunOut, case: &Case, trace: bool) -> Run
 // Non-termination watchdog. A synchronous library call that never returns cannot be caught by the
 // poll cap; each worker therefore publishes a heartbeat (bumped whenever the harness starts a
 // new sub-evaluation: a transport core or a blocking decode) and the run index it is working on.
-// A worker whose heartbeat stands still for VERIF_HANG_S seconds (default 180; single
+// A worker whose heartbeat stands still for VERIF_HANG_S seconds (default 600; single
 // sub-evaluations take milliseconds to a few seconds) is reported as a violation with the case it
 // is stuck in. Wall-clock time is read only here, never inside a run.
 
@@ -122,7 +122,7 @@ pub fn run_batch(
     const BLOCK: u64 = 64;
     let finished = AtomicU64::new(0);
     let njobs = jobs.clamp(1, MAXW);
-    let hang_s = std::env::var("VERIF_HANG_S").ok().and_then(|v| v.parse::<u64>().ok()).unwrap_or(180);
+    let hang_s = std::env::var("VERIF_HANG_S").ok().and_then(|v| v.parse::<u64>().ok()).unwrap_or(600);
     std::thread::scope(|sc| {
         // watchdog
         sc.spawn(|| {
